@@ -22,7 +22,7 @@ func init() {
 	fw.Register(&fw.Property{
 		ID:    "C15",
 		Level: "fault_enumeration",
-		Rule: "case = one input (CSV document, JSON document, frame to write, SQL result set, frame to insert) with EVERY fault position enumerated: reader fails after k bytes for every k in 0..len under four chunkings (whole, one byte, random, whole with the error returned together with the last bytes); " +
+		Rule: "case = one input (CSV document, JSON document, frame to write, SQL result set, frame to insert) with EVERY fault position enumerated (the evidence counters inputs_with_every_position:* give the number of such inputs; one CSV document in 60 has more than 1000 rows and gets faults on and around every row boundary from row 980 on plus random offsets instead, counted as inputs_with_selected_positions): reader fails after k bytes for every k in 0..len under four chunkings (whole, one byte, random, whole with the error returned together with the last bytes); " +
 			"writer refuses everything after k accepted bytes for every k in 0..total; driver fails at Prepare, at Query, at Next for every row r in 0..R, delivers an unsupported value at every row, fails at every Exec number; " +
 			"evaluation = one (input, fault position, chunking) execution judged by: no panic, and (error reported OR read result equals the fault-free result) / (error reported OR the writer accepted everything); " +
 			"non-trivial = fault position strictly inside the data (0 < k < len, r < R); distinct by (input, position, chunking)",
@@ -30,7 +30,7 @@ func init() {
 			"a fault is a non-EOF error returned by io.Reader.Read, io.Writer.Write or the database/sql driver; short writes come with an error",
 			"a late fault after which the data is nevertheless complete may legitimately succeed",
 		},
-		Exhaustive: func(string) bool { return true },
+		Exhaustive: func(string) bool { return false },
 		Stages:     stages(420, 6000, 0, 0),
 		RunCase:    runC15,
 	})
@@ -129,6 +129,11 @@ func runC15(c *fw.Case) {
 }
 
 func c15ReaderPositions(c *fw.Case, what string, doc []byte, read func(r io.Reader) qframe.QFrame) {
+	c15ReaderPositionsAt(c, what, doc, nil, read)
+}
+
+// c15ReaderPositionsAt injects the fault at the given positions only (nil = every position 0..len, all chunkings).
+func c15ReaderPositionsAt(c *fw.Case, what string, doc []byte, positions []int, read func(r io.Reader) qframe.QFrame) {
 	var full qframe.QFrame
 	if pv, _ := fw.Guard(func() { full = read(bytes.NewReader(doc)) }); pv != nil || full.Err != nil {
 		c.Count("inputs_rejected_fault_free", 1)
@@ -141,8 +146,18 @@ func c15ReaderPositions(c *fw.Case, what string, doc []byte, read func(r io.Read
 	}
 	c.Count("inputs:"+what, 1)
 	reported := 0
-	for k := 0; k <= len(doc); k++ {
-		for mode := 0; mode < 4; mode++ {
+	modes := []int{0, 1, 2, 3}
+	if positions == nil {
+		for k := 0; k <= len(doc); k++ {
+			positions = append(positions, k)
+		}
+		c.Count("inputs_with_every_position:"+what, 1)
+	} else {
+		modes = []int{0, 3}
+		c.Count("inputs_with_selected_positions:"+what, 1)
+	}
+	for _, k := range positions {
+		for _, mode := range modes {
 			c.Eval(1)
 			c.Count("fault_positions:"+what, 1)
 			if k > 0 && k < len(doc) {
@@ -182,6 +197,45 @@ func c15ReaderPositions(c *fw.Case, what string, doc []byte, read func(r io.Read
 
 func c15ReadCSV(c *fw.Case) {
 	rng := c.Rng
+	if c.No%60 == 0 {
+		// a document with more than 1000 rows (the reader switches buffers there): faults on and around every row
+		// boundary from row 980 on, on every 25th earlier boundary, and at 150 random offsets
+		d := genDoc(rng, "manyrows")
+		if _, _, err := d.expected(); err != nil {
+			return
+		}
+		var pos []int
+		row := 0
+		inQuote := false
+		for i, b := range d.bytes {
+			if b == '"' {
+				inQuote = !inQuote
+			}
+			if b == '\n' && !inQuote {
+				row++
+				if row >= 980 || row%25 == 0 {
+					pos = append(pos, i, i+1, i+2)
+				}
+			}
+		}
+		for k := 0; k < 150; k++ {
+			pos = append(pos, rng.Intn(len(d.bytes)+1))
+		}
+		var ok []int
+		for _, p := range pos {
+			if p >= 0 && p <= len(d.bytes) {
+				ok = append(ok, p)
+			}
+		}
+		c.DescribeLazy(func() interface{} {
+			m := d.describe()
+			m["operation"] = "ReadCSV of a document with more than 1000 rows, reader failing on/around row boundaries and at random offsets"
+			m["fault_positions"] = len(ok)
+			return m
+		})
+		c15ReaderPositionsAt(c, "ReadCSV", d.bytes, ok, func(r io.Reader) qframe.QFrame { return qframe.ReadCSV(r, d.config()...) })
+		return
+	}
 	class := []string{"tiny", "small", "small", "long"}[rng.Intn(4)]
 	if !c.Thorough() && class == "long" && rng.Intn(3) > 0 {
 		class = "small"
